@@ -11,14 +11,11 @@ import Glom.Model.C10Env
   (`Glom/Model/C10.lean`); it returns the outcome and the log of instrumented
   callables that ran.
 
-  Hypotheses that occur below:
+  Hypothesis that occurs below:
     `ctorErr s = none`   the spec can be constructed at all (`And()`, `Switch([])`,
-                         `Check(type=())`, … raise in their constructors; then the
-                         property is that this constructor error is what one gets:
-                         `c10_ctor_checks`)
-    `keysOK s = true`    only matters for dict patterns (C09): every plain dict key that
-                         `_precedence` ranks 0 is an equality key.  Trees without dict
-                         patterns satisfy it trivially.
+                         `Check(type=())`, an unhashable dict key … raise in their
+                         constructors; then the property is that this constructor error
+                         is what one gets: `c10_ctor_checks`)
 -/
 namespace Glom.Props.C10
 open Glom Glom.MV Glom.C10
@@ -50,18 +47,18 @@ theorem c10_raise_sites_are_match_errors :
     Check), the very exception on a fault — and the same sequence of instrumented
     callables ran. -/
 theorem c10_refines (env : Env) (hwf : WF env = true) (s : Spec) (t : V)
-    (hc : ctorErr s = none) (hk : keysOK s = true) :
+    (hc : ctorErr s = none) :
     Rel env (eval env s t) (denote env.cls s t) :=
-  eval_rel (WF.facts hwf) s t hc hk
+  eval_rel (WF.facts hwf) s t hc
 
 /-- **Checker theorem** — the form in which the property is also evaluated on the
     implementation's observation by the correspondence driver. -/
 theorem c10_model_checks (env : Env) (hwf : WF env = true) (s : Spec) (t : V)
-    (hc : ctorErr s = none) (hk : keysOK s = true) :
+    (hc : ctorErr s = none) :
     checkC10 env.cls s t (observe env (eval env s t)) = true := by
   unfold checkC10
   rw [hc]
-  exact rel_obsSat (c10_refines env hwf s t hc hk)
+  exact rel_obsSat (c10_refines env hwf s t hc)
 
 /-- a spec that cannot be constructed: the property is the constructor's error -/
 theorem c10_ctor_checks (ct : ClassTable) (s : Spec) (t : V) (e : PyExc) (hc : ctorErr s = some e) :
@@ -471,7 +468,7 @@ private def exAnd : Spec :=
   .and [.mexpr .m .gt (.const (.int 3)),
         .or [.pred 0 "never", .pred 1 "is_pos", .pred 2 "always"] none] none
 
-example : ctorErr exAnd = none ∧ keysOK exAnd = true := by decide
+example : ctorErr exAnd = none := by decide
 example : eval genEnv exAnd (.int 5) = (.ok (.int 5), [0, 1]) := by decide
 example : eval genEnv exAnd (.int 2) = (.error ⟨"MatchError"⟩, []) := by decide
 example : denote genEnv.cls exAnd (.int 5) = (.pass (.int 5), [0, 1]) := by decide
